@@ -1,12 +1,12 @@
 -- REGENERATED on every run by /verif/check from the compiled /repo tree. Do not edit.
 namespace SdnsVerif.Gen.C15
 
-def admission_of_skipwriters : List Nat := [0, 1, 1, 1, 0, 1, 0, 1, 0, 1]
+def admission_of_skipwriters : List Nat := [0, 1, 1, 1, 0, 1, 0, 1, 0, 1, 0, 0, 0, 1, 0, 0]
 def header_len : Nat := 12
 def lib_hroom_violations : Nat := 0
 def lib_mono_violations : Nat := 0
-def lib_sample_messages : Nat := 600
-def lib_sample_records : Nat := 19680
+def lib_sample_messages : Nat := 640
+def lib_sample_records : Nat := 25569
 def lib_writesall_violations : Nat := 0
 def libbits_single : List Nat := [0, 32768, 1024, 512, 256, 128, 64, 32, 16, 2048, 4096, 8192, 16384, 32768, 0, 1, 2, 4, 8, 0, 0, 15]
 def max_pooled_compression_entries : Nat := 64
